@@ -74,6 +74,7 @@ type result struct {
 	verdict string
 	raw     []stmt
 	bad     []string // oracle violations observed during this run (C05 / C06)
+	errText string   // text of the final error (histograms only)
 }
 
 type decoder interface {
@@ -208,11 +209,18 @@ func goDecode(pkg string, fail bool, base string, b []byte, chunk int) (res resu
 		w := termWire(st.s, label) + "," + termWire(st.p, label) + "," + termWire(st.o, label) + "," + termWire(st.g, label)
 		res.stmts = append(res.stmts, w)
 		if why := wellFormed(st, absBase || pkg == "nt" || pkg == "nq"); why != "" {
-			res.bad = append(res.bad, "C06 "+why+": "+w)
+			why = "C06 " + why + ": " + w
+			if len(b) <= 400 {
+				why += fmt.Sprintf(" -- %s decoder, default base %q, document %q", pkg, base, b)
+			}
+			res.bad = append(res.bad, why)
 		}
 	}
 	err := d.Err()
 	res.verdict = errClass(err)
+	if err != nil {
+		res.errText = err.Error()
+	}
 	// C05: terminal state is sticky
 	for i := 0; i < 2; i++ {
 		if d.Next() {
@@ -452,6 +460,11 @@ func (g *gen) dec(kind, pkg string, fail bool, base string, b []byte, nontrivial
 	g.rep.Eval(op, nontrivial && len(res.stmts) > 0)
 	g.rep.Count("op:" + kind)
 	g.rep.Count("verdict:" + pkg + ":" + res.verdict)
+	if strings.Contains(res.errText, "datatype requires a language tag") {
+		// the decoder got as far as an explicit rdf:langString / rdf:dirLangString datatype and refused it; for the
+		// kinds gen-* the only spelling the generator has for these is a relative IRIREF (see docGen.relDatatype)
+		g.rep.Count("refused-explicit-langString-datatype:" + kind + ":" + pkg)
+	}
 	return res
 }
 
@@ -474,7 +487,34 @@ func (g *gen) c07(kind, base string, b []byte, fail bool) {
 	g.rep.Count("c07:turtle-vs-trig")
 	if t.verdict == "clean" {
 		if q.verdict != "clean" || strings.Join(t.stmts, ";") != strings.Join(q.stmts, ";") {
+			// known-finding class `graph-keyword-ogham-space` (C07-graph-ogham, Lean: C07.finding_graph_ogham): a statement
+			// starts with the letters GRAPH (any case) immediately followed by U+1680, a PN_CHARS_BASE rune that
+			// unicode.IsSpace accepts: a prefix label for the Turtle decoder, the keyword GRAPH for the TriG decoder.
+			if f, ok := g.known["graph-keyword-ogham-space"]; ok && graphOgham.Match(b) {
+				g.addKnown(f, "turtle vs trig on "+vh.X(b))
+				return
+			}
 			g.violation("C07", "turtle vs trig on "+vh.X(b), fmt.Sprintf("Turtle decoder accepts with %d triples, TriG decoder: %s / %d quads; turtle=%s trig=%s", len(t.stmts), q.verdict, len(q.stmts), t.wire, q.wire))
+		}
+	}
+}
+
+// graphOgham: the class predicate of finding C07-graph-ogham.
+var graphOgham = regexp.MustCompile(`(?i)(^|[\s.])graph\x{1680}`)
+
+// graphOghamDocs: corner documents of finding C07-graph-ogham. They are run when /verif/known-findings.json lists the
+// finding (predicate `graph-keyword-ogham-space`); without the entry they are skipped (counted) — the oracle in c07
+// is not loosened: any such document reaching it without the entry is reported as a C07 violation.
+func (g *gen) graphOghamDocs() {
+	if _, ok := g.known["graph-keyword-ogham-space"]; !ok {
+		g.rep.Count("corner:graph-ogham-skipped(no known-findings entry)")
+		return
+	}
+	for _, l := range []string{"GRAPH\u1680x", "graph\u1680y", "GrApH\u1680"} {
+		for _, body := range []string{"%[1]s:s <http://k.example/p> %[1]s:o .", "<http://k.example/s> <http://k.example/p> 1 .\n%[1]s:s a %[1]s:C ."} {
+			doc := []byte("@prefix " + l + ": <http://k.example/n/> .\n" + fmt.Sprintf(body, l) + "\n")
+			g.c07("corner-graph-ogham", "", doc, false)
+			g.rep.Count("corner:graph-ogham-docs")
 		}
 	}
 }
@@ -683,6 +723,8 @@ var cornerDocs = []string{
 	"<a> <b> true.", "<a> <b> truex:y .", "<a> <b> false , true .", "<a> <b> tru .", "<a> <b> fals:e .", "<a> a<b> .", "<a> a <b> .", "<a> a:b <c> .", "<a> a",
 	"<a> <b> \"x\"", "<a> <b> \"x\"@en", "<a> <b> \"x\"@en .", "<a> <b> \"x\"^^<t> .", "<a> <b> \"x\"^<t> .", "<a> <b> \"x\"^^t:x .", "<a> <b> \"x\"^^",
 	"<a> <b> \"x\"^^<http://www.w3.org/1999/02/22-rdf-syntax-ns#langString> .",
+	"@base <http://www.w3.org/1999/02/22-rdf-syntax-ns> . <a> <b> \"x\"^^<#langString> .", "BASE <http://www.w3.org/1999/02/index.html> <a> <b> ( 'x'^^<22-rdf-syntax-ns#dirLangString> ) .",
+	"@base <http://www.w3.org/1999/02/22-rdf-syntax-ns> . <g> { <a> <b> [ <c> \"x\"^^<#langString> ] }", "@base <http://www.w3.org/1999/02/22-rdf-syntax-ns> . <a> <b> \"x\"^^<#HTML> , \"y\"^^<22-rdf-syntax-ns#XMLLiteral> .",
 	"<a> <b> 'x' , '''y''' , \"\"\"z\"\"\" , \"\" , '' .", "<a> <b> 1 , 1.0 , 1e0 , .5 , -1 , +1.5E-3 , 1. .", "<a> <b> . .", "<a> <b> .5.", "<a> <b> 1.",
 	"prefix : <http://e/> :a :b :c .", "PREFIX : <http://e/>\n:a :b :c .", "@prefix : <http://e/> . :a :b :c ; .", "@prefix p: <http://e/> . p:a p:b p:c , p:d ; p:e p:f .",
 	"@PREFIX : <http://e/> .", "@prefix: <http://e/> .", "PREFIX: <http://e/>", "prefixx:a <b> <c> .", "@base <http://e/d/> . <a> <b> <../c> .", "BASE <http://e/d/> <a> <b> <c> .",
@@ -745,6 +787,11 @@ func (g *gen) dtDocs() {
 		}
 		for fi, f := range forms {
 			lit := quotes[(fi+ti)%len(quotes)] + "^^" + f.dt
+			if strings.HasPrefix(f.dt, "<") && !hasScheme(f.dt[1:]) {
+				// documents (4 shapes per form) whose datatype is a relative IRIREF, by what it resolves to
+				ref := strings.ReplaceAll(strings.TrimSuffix(f.dt[1:], ">"), fmt.Sprintf("\\u%04X", t.frag[len(t.frag)-1]), t.frag[len(t.frag)-1:])
+				g.rep.Hist["dt:reldt_"+reldtClass(hdrBase(f.base, f.hdr), ref)] += len(shapes) + len(trigShapes)
+			}
 			for _, sh := range shapes {
 				doc := []byte(f.hdr + strings.ReplaceAll(sh, "%s", lit))
 				g.c07("dt-ttl", f.base, doc, false)
@@ -843,6 +890,13 @@ type docGen struct {
 	depth    int
 	spans    []span
 	hasBase  bool // an absolute base is in force (relative directive IRIs are generated only then)
+	// relative datatype references (reldt.go)
+	optBase                 string         // the decoder's default base option ("" = none)
+	curBase                 string         // the base the generator believes to be in force ("" = none, unknownBase = some other)
+	bias                    bool           // document biased towards RDF-namespace bases and relative datatype references
+	stats                   map[string]int // counters handed to the report
+	harmful                 int            // literals written whose relative datatype resolves to rdf:langString / rdf:dirLangString
+	inColl, inBnpl, inGraph int
 }
 
 var safeSegs = []string{"a", "b", "c", "d", "x1", "y-2", "z_3", "q.r", "~t", "A", "B9"}
@@ -979,7 +1033,11 @@ func (d *docGen) stringTok() {
 	default:
 		d.sb.WriteString("\"" + body + "\"")
 	}
-	switch d.r.Intn(9) {
+	k := d.r.Intn(9)
+	if d.bias && d.r.Chance(40) {
+		k = 4
+	}
+	switch k {
 	case 0, 1:
 		d.sb.WriteString("@" + d.r.LangTag())
 	case 2:
@@ -990,8 +1048,7 @@ func (d *docGen) stringTok() {
 	case 4:
 		// relative datatype references: under a base that is the RDF or XSD namespace document they become
 		// rdf:langString, rdf:HTML, xsd:string …
-		d.sb.WriteString("^^<" + vh.Pick(d.r, []string{"#", "22-rdf-syntax-ns#", "../02/22-rdf-syntax-ns#", "XMLSchema#"}) +
-			vh.Pick(d.r, []string{"langString", "dirLangString", "HTML", "string", "integer"}) + ">")
+		d.relDatatype()
 	}
 }
 
@@ -1020,7 +1077,9 @@ func (d *docGen) object() {
 	case 12, 13:
 		d.sb.WriteString("[")
 		d.ws(false)
+		d.inBnpl++
 		d.pol()
+		d.inBnpl--
 		d.ws(false)
 		d.sb.WriteString("]")
 	default:
@@ -1031,10 +1090,12 @@ func (d *docGen) object() {
 func (d *docGen) collection() {
 	d.sb.WriteString("(")
 	n := d.r.Intn(4)
+	d.inColl++
 	for i := 0; i < n; i++ {
 		d.ws(i > 0)
 		d.object()
 	}
+	d.inColl--
 	d.ws(false)
 	d.sb.WriteString(")")
 }
@@ -1090,7 +1151,9 @@ func (d *docGen) triples() {
 	case 1:
 		d.sb.WriteString("[")
 		d.ws(false)
+		d.inBnpl++
 		d.pol()
+		d.inBnpl--
 		d.ws(false)
 		d.sb.WriteString("]")
 		if d.r.Chance(50) {
@@ -1125,6 +1188,10 @@ func caseMix(r *vh.Rng, s string) string {
 }
 
 func (d *docGen) directive() {
+	if d.bias && d.r.Chance(50) {
+		d.baseDirective(d.rdfBaseRef())
+		return
+	}
 	start := d.sb.Len()
 	switch d.r.Intn(4) {
 	case 0:
@@ -1152,17 +1219,21 @@ func (d *docGen) directive() {
 		d.sb.WriteString("<" + d.nsIRI() + ">")
 		d.prefixes = append(d.prefixes, p)
 	case 2:
+		b := d.baseIRI()
 		d.sb.WriteString("@base")
 		d.ws(false)
-		d.sb.WriteString("<" + d.baseIRI() + ">")
+		d.sb.WriteString("<" + b + ">")
 		d.ws(false)
 		d.sb.WriteString(".")
 		d.hasBase = true
+		d.curBase = nextBase(d.curBase, b)
 	default:
+		b := d.baseIRI()
 		d.sb.WriteString(caseMix(d.r, "BASE"))
 		d.ws(false)
-		d.sb.WriteString("<" + d.baseIRI() + ">")
+		d.sb.WriteString("<" + b + ">")
 		d.hasBase = true
+		d.curBase = nextBase(d.curBase, b)
 	}
 	d.spans = append(d.spans, span{start, d.sb.Len() - 1})
 }
@@ -1226,6 +1297,11 @@ func (d *docGen) graphBlock() {
 	}
 	d.sb.WriteString("{")
 	n := d.r.Intn(4)
+	if d.bias {
+		n = 1 + d.r.Intn(3)
+	}
+	d.inGraph++
+	defer func() { d.inGraph-- }()
 	for i := 0; i < n; i++ {
 		d.ws(false)
 		d.triples()
@@ -1239,9 +1315,18 @@ func (d *docGen) graphBlock() {
 	d.spans = append(d.spans, span{start, d.sb.Len() - 1})
 }
 
-func genDoc(r *vh.Rng, trigDoc bool, hasBase bool) ([]byte, []span) {
-	d := &docGen{r: r, trig: trigDoc, hasBase: hasBase}
+// genDoc: base is the default base option the document will be decoded with; bias = the document is about
+// relative datatype references under RDF-namespace bases (reldt.go). The third result are histogram counters.
+func genDoc(r *vh.Rng, trigDoc bool, base string, bias bool) ([]byte, []span, map[string]int) {
+	d := &docGen{r: r, trig: trigDoc, hasBase: base != "", optBase: base, curBase: base, bias: bias}
 	n := r.Intn(6)
+	if bias {
+		n = 1 + r.Intn(5)
+		if !strings.HasPrefix(base, "http://www.w3.org/1999/02/") || r.Chance(25) {
+			d.ws(false)
+			d.baseDirective(d.rdfBaseRef())
+		}
+	}
 	for i := 0; i < n; i++ {
 		d.ws(false)
 		switch {
@@ -1258,7 +1343,13 @@ func genDoc(r *vh.Rng, trigDoc bool, hasBase bool) ([]byte, []span) {
 		}
 	}
 	d.ws(false)
-	return d.sb.Bytes(), d.spans
+	if bias {
+		d.count("gen.reldt_biased-docs")
+	}
+	if d.harmful > 0 {
+		d.count("gen.reldt_docs-with-langString-or-dirLangString")
+	}
+	return d.sb.Bytes(), d.spans, d.stats
 }
 
 var hotBytes = []byte("<>\"'\\ \t\n.;,:@^#()[]{}_-aAtfGgBbPp0e+%\x00\xc3\xa9")
@@ -1273,7 +1364,15 @@ func (g *gen) generated(n, cutsPerDoc int) {
 		if g.r.Chance(8) {
 			base = vh.Pick(g.r, []string{"http://www.w3.org/1999/02/22-rdf-syntax-ns", "http://www.w3.org/1999/02/index.html", "http://www.w3.org/2001/XMLSchema"})
 		}
-		doc, spans := genDoc(g.r.Fork(), trigDoc, base != "")
+		bias := g.r.Chance(12)
+		if bias {
+			// default base option: the RDF namespace document, a sibling of it, none (the document declares it)
+			base = vh.Pick(g.r, []string{rdfNSDoc, rdfNSSibling, "http://www.w3.org/1999/02/", "", "", base})
+		}
+		doc, spans, stats := genDoc(g.r.Fork(), trigDoc, base, bias)
+		for k, v := range stats {
+			g.rep.Hist[k] += v
+		}
 		if trigDoc {
 			g.dec("gen-trig", "trig", false, base, doc, true)
 			g.dec("gen-trig-as-turtle", "turtle", false, base, doc, true)
@@ -1456,7 +1555,7 @@ func splitWire(w string) ([]string, string) {
 func main() {
 	flag.Parse()
 	seed := vh.SeedFromEnv()
-	rep := vh.NewReport(*prop, *tier, seed, "all W3C Turtle/TriG/N-Triples files shipped in the repository (with and without base), hand-picked corner documents around past findings, grammar-directed Turtle and TriG documents (directives in any case, prefixed names with escapes, relative IRIs under changing bases, four string styles, numeric/boolean shorthand, 'a', nested [ ] and ( ), ;/, lists with trailing ;, comments and white space anywhere, GRAPH and bare graph blocks), byte-level mutations, prefixes (cuts) of those, chunked and failing readers; non-trivial = the implementation yielded at least one statement")
+	rep := vh.NewReport(*prop, *tier, seed, "all W3C Turtle/TriG/N-Triples files shipped in the repository (with and without base), hand-picked corner documents around past findings, grammar-directed Turtle and TriG documents (directives in any case, prefixed names with escapes, relative IRIs under changing bases, relative datatype references under RDF-namespace bases, four string styles, numeric/boolean shorthand, 'a', nested [ ] and ( ), ;/, lists with trailing ;, comments and white space anywhere, GRAPH and bare graph blocks), byte-level mutations, prefixes (cuts) of those, chunked and failing readers; non-trivial = the implementation yielded at least one statement")
 	startWatchdog(rep)
 	fs, err := vh.LoadFindings(*findings)
 	if err != nil {
@@ -1566,7 +1665,10 @@ func main() {
 			g.c15chunk("turtle", "", []byte(d), false)
 			g.c15chunk("trig", "", []byte(d), false)
 		}
+		g.reldtCornerDocs()
+		rep.Exhaustive = append(rep.Exhaustive, fmt.Sprintf("%d fixed documents with relative datatype references (fragment-only, sibling, dot-segment, absolute-path and network-path references; base from @base / BASE / the default base option / changing in the document; plain objects, collections, blank-node property lists, graph blocks) that resolve to rdf:langString / rdf:dirLangString or to harmless near misses", len(reldtCorners)))
 		g.kwDocs()
+		g.graphOghamDocs()
 		g.dtDocs()
 		rep.Exhaustive = append(rep.Exhaustive, "datatype IRIs of 6 datatypes (rdf:langString, rdf:dirLangString, rdf:HTML, xsd:string, xsd:integer, a plain IRI) written as absolute and relative IRIREFs under @base / BASE / default bases and as prefixed names with absolute, relative and mid-name namespaces and keyword-like labels, in 4 statement shapes, both packages")
 		rep.Exhaustive = append(rep.Exhaustive, fmt.Sprintf("%d keyword-like prefix labels (prefixes, spellings and extensions of graph/prefix/base/a/true/false) x 19 statement shapes (subject, predicate, object, list member, datatype, graph name) x shortened labels declared or not", len(kwLabels)))
